@@ -84,10 +84,12 @@ PROPS = {
         "rule": "independent table of 77 cells (request type x target kind -> governing privilege numbers, from the protocol's privilege list) "
                 "covering all 43 registered transaction types; TestC05Matrix enumerates every cell x {each of the 40 single-privilege "
                 "bitmaps, all, none, all-but-one-governing}; TestC05 draws cell x requester bitmap (random 64 bits with governing bits "
-                "forced, all-but-governing, only-governing, missing-one) with rapid; each case runs in a fresh world with two observers; "
+                "forced, all-but-governing, only-governing, missing-one) x how the requester came by them (account file at login, or an "
+                "administrator's set-user that flips the governing bits while the account is logged in twice and the requester is the later "
+                "session) with rapid; each case runs in a fresh world with two observers; "
                 "oracle: effect observed only if its privileges are held; all held => effect observed and no error; any missing => error "
                 "reply, file/config snapshot unchanged, observers and victim receive nothing, requester's transfer list unchanged; "
-                "non-trivial = requester bitmap is neither empty nor all 40 privileges; distinct = hash(cell, bitmap)",
+                "non-trivial = requester bitmap is neither empty nor all 40 privileges; distinct = hash(cell, bitmap, path)",
         "assumptions": ["upload / drop-box target folders are named unambiguously (Uploads, Drop Box, other)",
                         "the privilege table in harness/props/c05_test.go is the oracle (written from the protocol privilege list)"],
         "quick": {"runs": [{"test": "^TestC05Matrix$", "shards": 16, "timeout": 600},
